@@ -47,10 +47,23 @@ Qed.
 
 Lemma inv2_write_event_set s : Inv2 s -> Inv2 (write_event_set s).
 Proof.
-  intros H. unfold write_event_set. destruct (wval s (wev s)); [exact H|].
+  intros H. unfold write_event_set, write_event_set0. cbn [wval wev set_g_pending].
+  destruct (wval s (wev s)); [apply (inv2_keep s); auto|].
   apply (inv2_keep s); auto. intros t mx P. cbn in P. unfold wake_writers in P.
   destruct (phase_of s t) as [| | | | e [] |]; try discriminate; try exact P.
   destruct (Nat.eqb e (wev s)); discriminate.
+Qed.
+
+Lemma inv2_send_write s t item pw : Inv2 s -> Inv2 (fst (send_write s t item pw)).
+Proof.
+  intros H.
+  pose proof (send_write_fields s t item pw) as F. cbn zeta in F.
+  destruct F as (_ & _ & _ & F4 & F5 & _ & F7 & _ & F9 & F10 & F11 & F12 & F13 & _).
+  apply (inv2_keep s); auto.
+  - intros Ht. rewrite F11. exact Ht.
+  - intros u mx P. destruct (Nat.eqb_spec u t) as [->|Hu].
+    + destruct F13 as [E|[ev E]]; rewrite E in P; discriminate.
+    + rewrite <- (F12 u Hu). exact P.
 Qed.
 
 Lemma inv2_recv_finish s t mx :
@@ -108,13 +121,13 @@ Proof.
         -- apply inv2_recv_finish. apply (inv2_keep s); auto.
       * destruct p; cbn [cancel_wait]; (apply (inv2_keep s); auto; keep_phase t Ep).
     + destruct (mustc s t); [apply (inv2_keep s); auto; keep_phase t Ep|].
-      destruct (closed s); [apply (inv2_keep s); auto; keep_phase t Ep|].
-      destruct (exc s) eqn:Ex; [apply (inv2_keep s); auto; keep_phase t Ep|].
-      destruct (weof s); [apply (inv2_keep s); auto; keep_phase t Ep|].
-      destruct pw; cbn; split_all; cbn [fst]; (apply (inv2_keep s); auto; keep_phase t Ep).
+      destruct (andb _ _); cbn [fst]; [apply (inv2_keep s); auto; keep_phase t Ep|].
+      apply inv2_send_write; exact H.
     + destruct f; cbn [fst]; [exact H| |apply (inv2_keep s); auto; keep_phase t Ep].
-      destruct (mustc s t); apply (inv2_keep s); auto; keep_phase t Ep.
-    + destruct (mustc s t); cbn [fst]; apply (inv2_keep s); auto; keep_phase t Ep.
+      destruct (mustc s t); [apply (inv2_keep s); auto; keep_phase t Ep|].
+      destruct (prew s t) as [it|]; [|apply (inv2_keep s); auto; keep_phase t Ep].
+      apply inv2_send_write. apply (inv2_keep s); auto.
+    + destruct (mustc s t); cbn [fst]; [destruct p|]; apply (inv2_keep s); auto; keep_phase t Ep.
   - destruct (phase_of s t) as [|mx|mx f|item|ev f|] eqn:Ep; try destruct f; cbn [fst];
       try exact H; apply (inv2_keep s); auto; keep_phase t Ep.
   - destruct d as [|b d]; cbn [fst]; [exact H|].
